@@ -30,7 +30,7 @@ var (
 )
 
 type Case struct {
-	Kind  string // abort-close abort-reset iofault hello-mutation hello-truncation h2-mutation plain-http stall
+	Kind  string // abort-close abort-reset iofault hello-mutation hello-truncation h2-mutation plain-http stall slow-reader
 	Proto string // h1 h2
 	K     int    // byte offset / op index / mutation index
 	Err   string // for iofault
@@ -203,6 +203,40 @@ func Run(t *testing.T, cs Case, opts bubble.StackOpts, hello []byte, oracle func
 			synctest.Wait()
 			cl.Raw.Deliver(cs.K)
 			synctest.Wait()
+		case "slow-reader":
+			// the client asks for a large response and stops reading; the proxy's writes block (bounded socket buffer);
+			// after a while the client goes away (Val 0: close, 1: reset) or (Val 2) starts reading again and finishes
+			st.Backend.Respond = func(r *bubble.RecReq) *bubble.Resp {
+				if r.Path == "/big" {
+					return &bubble.Resp{Status: 200, Body: make([]byte, 300000)}
+				}
+				return nil
+			}
+			h := helloFor(cs.Proto)
+			h.Prep = func(c, sv *memnet.Conn) { sv.SetWriteCap(4096) }
+			cl = st.Connect("victim", nil, h)
+			synctest.Wait()
+			cl.PauseReads()
+			if cs.Proto == "h1" {
+				cl.SendH1(bubble.Req{Path: "/big", Host: "localhost"})
+			} else {
+				cl.StartH2(h2wire.Setting{ID: 4, Val: 1 << 30})
+				cl.Write(h2wire.WindowUpdate(0, 1<<30))
+				cl.SendH2(1, bubble.Req{Path: "/big", Host: "localhost"})
+			}
+			synctest.Wait()
+			time.Sleep(time.Duration(cs.K) * time.Second)
+			synctest.Wait()
+			switch cs.Val {
+			case 0:
+				cl.Abort(nil)
+			case 1:
+				cl.Abort(syscall.ECONNRESET)
+			default:
+				cl.ResumeReads()
+				synctest.Wait()
+				cl.Close()
+			}
 		case "h2-mutation":
 			cl = st.Connect("victim", nil, HelloH2)
 			synctest.Wait()
